@@ -40,6 +40,9 @@ fn outcome<U: OutElem>(ctx: &mut Ctx, rf: Rf, label: &str, p: &P, path: Path, ex
                 return;
             }
             ctx.count("defined_results");
+            if (p.w == 0 || p.w > p.x.len()) && !v.is_empty() {
+                ctx.sample(|| format!("{} -> fully defined result of {} slots (every slot written exactly once, every access in bounds)", desc(rf, label, p, path), v.len()));
+            }
             if p.w == 0 || p.y.len() != p.x.len() {
                 ctx.count("degenerate_defined_results");
             }
